@@ -91,6 +91,9 @@ func plan(tier string, seed int64) []run.Batch {
 	for i := 0; i < directed; i++ {
 		add("directed", 0, "race", 240, nil)
 	}
+	for i := 0; i < directed; i++ { // 1 in quick, 4 in thorough
+		add("scale", 0, "race", 240, nil)
+	}
 	for s := 0; s < stressRounds; s++ {
 		for i := 0; i < 8; i++ {
 			add("stress", 0, "race", 240, p("slice", i, "of", 8))
@@ -143,6 +146,8 @@ func child(b run.Batch, r *ev.Result) {
 		childDirected(b, r)
 	case "selftest":
 		childSelfTest(b, r)
+	case "scale":
+		childScale(b, r)
 	default:
 		r.Inconc("unknown batch kind " + b.Kind)
 	}
@@ -260,6 +265,22 @@ func classifyDeath(c *ev.Check, o *run.Outcome) bool {
 	for _, g := range gs {
 		inServer, atLock, inHook, idle := false, false, false, false
 		first := ""
+		// parked in sync.(*Mutex).Lock with repository code below it (package server or a package it calls, e.g. glow)
+		if strings.HasPrefix(g.state, "sync.Mutex.Lock") || strings.HasPrefix(g.state, "semacquire") {
+			for i, f := range g.frames {
+				if i < 4 && strings.HasPrefix(f, "sync.(*Mutex).Lock") {
+					for _, f2 := range g.frames[i:] {
+						if strings.Contains(f2, "glowlabs-org/gca-backend/") {
+							atLock = true
+							if first == "" {
+								first = f2[strings.LastIndex(f2, "/")+1:]
+							}
+							break
+						}
+					}
+				}
+			}
+		}
 		for i, f := range g.frames {
 			if strings.HasPrefix(f, serverPkg) {
 				inServer = true
@@ -274,7 +295,7 @@ func classifyDeath(c *ev.Check, o *run.Outcome) bool {
 				}
 			}
 		}
-		if !inServer {
+		if !inServer && !atLock {
 			continue
 		}
 		if len(g.frames) > 0 && (g.frames[0] == "panic" || (lifetime && g.state == "running" && first == "NewGCAServer.func1")) {
@@ -366,6 +387,10 @@ func post(c *ev.Check, outs []*run.Outcome) {
 		c.Require("directed.rotations_under_polls", 1)
 		c.Require("directed.polls_overlapping_a_rotation", 1)
 		c.Require("directed.victims_churned", 1)
+		c.Require("scale.rotations", 55)
+		c.Require("scale.poll_week_classes", 3)
+		c.Require("scale.device_runs_completed", 1)
+		c.Require("scale.device_reports_checked", 170)
 		c.Require("paths.tours_completed", int64(nBatch["paths"]))
 		c.Require("paths.success_answers", 10)
 		c.Require("stress.final_checks", int64(nBatch["stress"]))
